@@ -29,7 +29,7 @@ RULE = ('plan = random user policies (preset and/or group sections, missing '
         'undefined ones, engine restarts; after every step every identity '
         'reads every object. Non-trivial: some object was both allowed to '
         'one identity and denied to another. Distinct = plan digest.')
-PROBES = ['denied_direct', 'denied_indirect_wrapping_key',
+PROBES = ['policy_reload', 'denied_direct', 'denied_indirect_wrapping_key',
           'denied_indirect_derive_base', 'allowed_by_group_section',
           'allowed_owner_only', 'undefined_policy_object', 'restart',
           'locate_filtered_something', 'idless_in_batch']
@@ -135,7 +135,12 @@ def generate(rng, tier, index):
                           'cont': 1 if len(items) > 1 else None})
         elif x < 0.34:
             steps.append({'restart': True})
-        elif x < 0.42 and ctx.objs:
+        elif x < 0.40:
+            # the policy directory monitor replaces / removes a user policy
+            nm = r.choice(['pA', 'pB', 'pC'])
+            steps.append({'policy': {nm: gen_policy(r)
+                                     if r.random() < 0.75 else None}})
+        elif x < 0.47 and ctx.objs:
             # indirect reach: wrapping key / derivation base of someone else
             o = ctx.pick_obj(['SymmetricKey', 'SecretData'], 0)
             k = ctx.pick_obj(['SymmetricKey'], 0)
@@ -213,6 +218,7 @@ def execute(plan):
     viol = []
     states = []
     store = model.policy_store(plan['policies'])
+    current = dict(plan['policies'])
     W = world.World(plan['actors'], plan['policies'], seed=plan['seed'])
     allowed_to = {}
     denied_to = {}
@@ -240,6 +246,21 @@ def execute(plan):
             if 'restart' in st:
                 W.restart()
                 probes['restart'] += 1
+                continue
+            if 'policy' in st:
+                # what the monitor does to the shared store on a reload
+                for nm, doc in st['policy'].items():
+                    current[nm] = doc
+                    if doc is None:
+                        current.pop(nm, None)
+                        W.policies.pop(nm, None)
+                    else:
+                        W.policies.update(world.convert_policies({nm: doc}))
+                        if nm not in world.convert_policies({nm: doc}):
+                            W.policies.pop(nm, None)
+                store.clear()
+                store.update(model.policy_store(current))
+                probes['policy_reload'] += 1
                 continue
             before = model.store_view(W.db)
             dump_before = W.dump()
@@ -407,7 +428,8 @@ def execute(plan):
                            (k, sorted(v)) for k, v in
                            plan['policies'].items()),
                        'ops': [[o['op'] for o in s['items']]
-                               if 'items' in s else 'restart'
+                               if 'items' in s else
+                               ('restart' if 'restart' in s else 'policy')
                                for s in plan['steps']]},
         }
     finally:
@@ -422,6 +444,8 @@ def simplify(plan):
                 del c['steps'][i]['items'][j]
                 yield c
     for nm in sorted(plan['policies']):
+        if any('policy' in s and nm in s['policy'] for s in plan['steps']):
+            continue
         c = copy.deepcopy(plan)
         del c['policies'][nm]
         yield c
